@@ -4,29 +4,34 @@
 (* (properties C17, C18, C27, C28).                                        *)
 (*                                                                         *)
 (* A session is a sequence of top-level calls (model_from_file /           *)
-(* model_from_str, or a repair of the file system) on ONE metamodel.  A     *)
-(* load is a stack of frames: the main frame and one nested frame per       *)
-(* imported file that is neither visible from the importing model           *)
-(* (repoLocal) nor known to the shared repository of the load (repoAll).    *)
-(* One action per step that the file system, user code or an exception can  *)
-(* observe or interrupt (DESIGN.md Appendix K):                              *)
+(* model_from_str, or a repair of the file system) on the metamodels of one *)
+(* or two registered languages.  A load is a stack of frames: the main      *)
+(* frame and one nested frame per imported file that is neither visible     *)
+(* from the importing model (repoLocal) nor known to the repository shared  *)
+(* by the models of the load (repoAll).  One action per step that the file  *)
+(* system, user code or an exception can observe or interrupt (DESIGN.md    *)
+(* Appendix K):                                                             *)
 (*   StartLoad CheckParams CacheStep OpenFile/SkipOpen Parse Register        *)
-(*   ImportNext/ImportGlobHits/ImportGlobPick/ImportsDone NestedMP Resolve   *)
-(*   ObjProcs ObjProcsDone MainMP Cleanup Repair                             *)
+(*   ImportNext/ImportGlobHits/ImportGlobPick/ImportsDone NestedCache        *)
+(*   NestedMP Resolve ObjProcs ObjProcsDone MainMP Cleanup Repair            *)
 (*                                                                         *)
 (* The scenario `sc` (chosen in Init) is the file system and the metamodel  *)
 (* configuration; everything in it is JSON-shaped (sequences, strings,      *)
 (* numbers, records keyed by file name) so that the same module judges      *)
 (* TLC-enumerated scenarios and scenarios recorded by the harness.          *)
 (*   sc.files    Seq(file)              sc.kind    provider kind            *)
+(*   sc.lang     [file -> "A" | "B"]    language (metamodel) of the file     *)
 (*   sc.imports  [file -> Seq(file | "*")]   ("*" = the glob pattern)       *)
 (*   sc.glob     Seq(file)  files matched by the pattern                    *)
-(*   sc.defs     [file -> Seq(name)]    sc.refs    [file -> Seq(name)]      *)
+(*   sc.defs     [file -> Seq(name)]    definitions, one per line            *)
+(*   sc.refs     [file -> Seq(name)]    single references, one per line      *)
+(*   sc.lrefs    [file -> Seq(name)]    one list reference `refs x, y, z`    *)
 (*   sc.pad/ind  [file -> Nat] empty lines before / indentation of items    *)
-(*   sc.grepo    metamodel has a global repository                          *)
+(*   sc.repo     [A, B -> "-" | "r1" | "r2"] global repository of a language *)
+(*               ("-" none; the same name = one shared repository object)    *)
 (*   sc.builtin  Seq(name): elements of the builtin model (<<>> = none)     *)
-(*   sc.declared Seq(param)             sc.fault   [kind, file]             *)
-(*   sc.session  Seq([op |-> "load", file, how, given] | [op |-> "repair"]) *)
+(*   sc.declared [A, B -> Seq(param)]   sc.fault   [kind, file, at]          *)
+(*   sc.session  Seq([op |-> "load", file, how, given, vals] | [op |-> "repair"]) *)
 (*   sc.id       number of the scenario in its batch (given by the harness)  *)
 (* Where the file system decides (order of globbed files) or the documents  *)
 (* do not decide (which of several offending references is reported, which  *)
@@ -48,17 +53,19 @@ VARIABLES
   step,        \* number of finished session operations
   fault,       \* the scenario's fault is still in the file system
   stack,       \* load frames, innermost last
-  models,      \* model id -> [params, defs, refs, tg, nofile]
-  repoAll,     \* file -> model id: the repository shared by all models of the
-               \*   current load; with a global repository it outlives the load
-  repoLocal,   \* model id -> set of files visible from that model
+  models,      \* model id -> [src, params, defs, uses, lrefs, tg, nofile]
+  repos,       \* repository -> (key -> model id).  "r1", "r2": global repositories of
+               \*   the metamodels (they outlive a load); "tmp": the repository created by a
+               \*   load whose metamodel has none.  The repository of the main model's
+               \*   language is shared by all models of the load (repoAll below).
+  repoLocal,   \* model id -> set of keys visible from that model
   opens,       \* file -> number of opens in the current top-level load
   created,     \* model ids created by the current top-level load
-  before,      \* repoAll when the current top-level load began
+  before,      \* repos when the current top-level load began
   outcome,     \* result of the last finished top-level load
   hist         \* one summary per finished load (what the harness compares)
 
-vars == <<sc, dev, step, fault, stack, models, repoAll, repoLocal, opens, created, before, outcome, hist>>
+vars == <<sc, dev, step, fault, stack, models, repos, repoLocal, opens, created, before, outcome, hist>>
 
 ----------------------------------------------------------------------------
 Range(s)   == {s[i] : i \in 1..Len(s)}
@@ -66,11 +73,14 @@ Files      == Range(sc.files)
 NoneFile   == "<none>"
 NoModel    == [f |-> "-", a |-> 0]
 Builtin    == [f |-> "<builtin>", a |-> 0]
+Rids       == {"r1", "r2"}
+NoCul      == <<"-", 0, "-">>
 Pending    == [ok |-> FALSE, kind |-> "pending", file |-> NoneFile, line |-> 0, col |-> 0,
-               model |-> NoModel, cul |-> <<"-", 0>>]
+               model |-> NoModel, cul |-> NoCul]
 OkRes(m)   == [ok |-> TRUE, kind |-> "ok", file |-> NoneFile, line |-> 0, col |-> 0,
-               model |-> m, cul |-> <<"-", 0>>]
-\* cul = <<file, item line>> names the offending text (history only)
+               model |-> m, cul |-> NoCul]
+\* cul = <<file, reference index | 0 for the syntax fault, file name of that model | NoneFile>>
+\* names the offending text (history only)
 ErrRes(k, f, l, c, cul) == [ok |-> FALSE, kind |-> k, file |-> f, line |-> l, col |-> c,
                             model |-> NoModel, cul |-> cul]
 
@@ -86,37 +96,60 @@ Op      == sc.session[step + 1]          \* the operation in progress / next
 LastOp  == sc.session[step]              \* the operation just finished
 Attempt == step + 1
 
-Frame(f, main) == [file |-> f, main |-> main, pc |-> IF main THEN "check" ELSE "open",
+\* the global repository of the language of file f ("-" = none)
+Rid(f)     == sc.repo[sc.lang[f]]
+RidOf(op)  == IF Rid(op.file) = "-" THEN "tmp" ELSE Rid(op.file)
+CurRid     == RidOf(Op)                  \* repository shared by the models of the current load
+repoAll    == repos[CurRid]
+SetAll(ra) == [repos EXCEPT ![CurRid] = ra]
+
+Frame(f, main) == [file |-> f, main |-> main, pc |-> IF main THEN "check" ELSE "ncache",
                    m |-> NoModel, todo |-> <<>>, gl |-> {}, left |-> {}, nc |-> FALSE]
+
+\* a model without file name is stored under an invented key
+Key(m) == IF models[m].nofile THEN "~" \o ToString(m.a) ELSE m.f
 
 ----------------------------------------------------------------------------
 \* The file system: content of a file, with the scenario's fault while present
 FaultIn(f, k) == fault /\ sc.fault.kind = k /\ sc.fault.file = f
+BadRef(f) == IF FaultIn(f, "unknown") THEN <<"nope">>
+             ELSE IF FaultIn(f, "postponed") THEN <<"pp">> ELSE <<>>
 
 DefsOf(f) == sc.defs[f] \o
    (IF FaultIn(f, "objproc") THEN <<"bado">>
     ELSE IF FaultIn(f, "modelproc") THEN <<"badm">>
     ELSE IF FaultIn(f, "notunique") THEN <<sc.defs[f][1]>>
     ELSE <<>>)
-RefsOf(f) == sc.refs[f] \o
-   (IF FaultIn(f, "unknown") THEN <<"nope">>
-    ELSE IF FaultIn(f, "postponed") THEN <<"pp">>
-    ELSE <<>>)
+UsesOf(f)  == sc.refs[f]  \o (IF sc.fault.at = "list" THEN <<>> ELSE BadRef(f))
+LrefsOf(f) == sc.lrefs[f] \o (IF sc.fault.at = "list" THEN BadRef(f) ELSE <<>>)
+\* the builtin model is built once, from a string, when the metamodel is created
+BuiltinDefs == sc.builtin \o (IF sc.fault.kind = "notunique" /\ sc.fault.file = "<builtin>"
+                              THEN <<sc.builtin[1]>> ELSE <<>>)
 
 \* import statements that take effect: a GlobalRepo provider loads its file
 \* pattern for every model and ignores import statements
 Stmts(f) == IF IsGlobKind THEN <<"*">> ELSE sc.imports[f]
 
 \* Text layout (the renderer of the harness follows it; checked there):
-\*   pad empty lines; one line per import statement, definition, reference
-\*   (in this order), each indented by ind; a syntax fault is a last line "@@".
-\*   import "x.m" = 12 characters, "def " / "use " = 4.
-LineLens(f, defs, refs, broken) ==
+\*   pad empty lines; one line per import statement, definition, single reference
+\*   (in this order), then one line `refs x, y, z` for the list reference, each indented
+\*   by ind; a syntax fault is a last line "@@".
+\*   import "x.ma" = 13 characters, "def " / "use " = 4, "refs " = 5, ", " = 2.
+RECURSIVE SumLen(_, _)
+SumLen(names, k) == IF k = 0 THEN 0 ELSE SumLen(names, k - 1) + Len(names[k])
+LineLens(f, defs, uses, lrefs, broken) ==
      [i \in 1..sc.pad[f] |-> 0]
-  \o [i \in 1..Len(sc.imports[f]) |-> sc.ind[f] + 12]
+  \o [i \in 1..Len(sc.imports[f]) |-> sc.ind[f] + 13]
   \o [i \in 1..Len(defs) |-> sc.ind[f] + 4 + Len(defs[i])]
-  \o [i \in 1..Len(refs) |-> sc.ind[f] + 4 + Len(refs[i])]
+  \o [i \in 1..Len(uses) |-> sc.ind[f] + 4 + Len(uses[i])]
+  \o (IF lrefs # <<>> THEN <<sc.ind[f] + 5 + SumLen(lrefs, Len(lrefs)) + 2 * (Len(lrefs) - 1)>> ELSE <<>>)
   \o (IF broken THEN <<sc.ind[f] + 2>> ELSE <<>>)
+\* position of reference i (single references first, then the elements of the list)
+RefLineIn(f, defs, uses, i) == sc.pad[f] + Len(sc.imports[f]) + Len(defs)
+                                 + (IF i <= Len(uses) THEN i ELSE Len(uses) + 1)
+RefColIn(f, uses, lrefs, i) == IF i <= Len(uses) THEN sc.ind[f] + 5
+                               ELSE LET j == i - Len(uses) IN
+                                    sc.ind[f] + 6 + SumLen(lrefs, j - 1) + 2 * (j - 1)
 
 RECURSIVE SumTo(_, _)
 SumTo(lens, k) == IF k = 0 THEN 0 ELSE SumTo(lens, k - 1) + lens[k] + 1   \* characters incl. newlines of lines 1..k
@@ -128,15 +161,18 @@ LineColIn(lens, off) ==
       ln   == Cardinality({i \in 1..Len(lens) : ends[i] < off})
   IN  IF ln = 0 THEN <<1, off + 1>> ELSE <<ln + 1, off - ends[ln]>>
 
-ModelLens(x) == LineLens(x.f, models[x].defs, models[x].refs, FALSE)
-RefLine(x, i) == sc.pad[x.f] + Len(sc.imports[x.f]) + Len(models[x].defs) + i
-RefCol(x)     == sc.ind[x.f] + 5
-GarbageLine(f) == sc.pad[f] + Len(sc.imports[f]) + Len(DefsOf(f)) + Len(RefsOf(f)) + 1
-FileLabel(x)  == IF models[x].nofile THEN NoneFile ELSE x.f
+AllRefs(x)   == models[x].uses \o models[x].lrefs
+ModelLens(x) == IF x = Builtin THEN [i \in 1..Len(BuiltinDefs) |-> 4 + Len(BuiltinDefs[i])]
+                ELSE LineLens(models[x].src, models[x].defs, models[x].uses, models[x].lrefs, FALSE)
+RefLine(x, i) == RefLineIn(models[x].src, models[x].defs, models[x].uses, i)
+RefCol(x, i)  == RefColIn(models[x].src, models[x].uses, models[x].lrefs, i)
+GarbageLine(f) == sc.pad[f] + Len(sc.imports[f]) + Len(DefsOf(f)) + Len(UsesOf(f))
+                    + (IF LrefsOf(f) # <<>> THEN 1 ELSE 0) + 1
+FileLabel(x)  == IF x = Builtin \/ models[x].nofile THEN NoneFile ELSE x.f
 
 ----------------------------------------------------------------------------
 \* Lookup (C17): the model itself, then the models loaded by it, then builtin models
-DefSeq(x)    == IF x = Builtin THEN sc.builtin ELSE models[x].defs
+DefSeq(x)    == IF x = Builtin THEN BuiltinDefs ELSE models[x].defs
 HasDef(x, n) == n \in Range(DefSeq(x))
 Count(x, n)  == Cardinality({j \in 1..Len(DefSeq(x)) : DefSeq(x)[j] = n})
 FirstIdx(x, n) == CHOOSE j \in 1..Len(DefSeq(x)) :
@@ -149,7 +185,7 @@ Tier(m, n) ==
        ELSE IF sc.builtin # <<>> /\ HasDef(Builtin, n) THEN {Builtin} ELSE {}
 Targets(m, n) == {[m |-> x, i |-> FirstIdx(x, n)] : x \in Tier(m, n)}
 
-RefName(m, i)   == models[m].refs[i]
+RefName(m, i)   == AllRefs(m)[i]
 IsPostponed(m, i) == CanPostpone /\ RefName(m, i) = "pp"
 IsUnknown(m, i)   == ~IsPostponed(m, i) /\ Tier(m, RefName(m, i)) = {}
 Dups(m, i)        == {x \in Tier(m, RefName(m, i)) : Count(x, RefName(m, i)) > 1}
@@ -159,12 +195,13 @@ IsNotUnique(m, i) == ~IsPostponed(m, i) /\ IsPlainKind /\ Dups(m, i) # {}
 \* What the harness can observe when a top-level load has finished
 SummaryTg(incl, ms) ==
   UNION {{[m |-> x, i |-> i, to |-> ms[x].tg[i]] : i \in 1..Len(ms[x].tg)} : x \in incl}
+UsedRids == {sc.repo[l] : l \in {"A", "B"}} \ {"-"}
 
-Summary(oc, ra, rl, ms, ops) ==
-  LET incl == IF oc.ok THEN {ra[g] : g \in DOMAIN ra} \cup {oc.model} ELSE {} IN
+Summary(oc, rs, cur, rl, ms, ops) ==
+  LET incl == IF oc.ok THEN {rs[cur][g] : g \in DOMAIN rs[cur]} \cup {oc.model} ELSE {} IN
   [ res    |-> [ok |-> oc.ok, kind |-> oc.kind, file |-> oc.file, line |-> oc.line, col |-> oc.col,
                 model |-> oc.model],
-    grepo  |-> IF sc.grepo THEN {[f |-> g, m |-> ra[g]] : g \in DOMAIN ra} ELSE {},
+    grepo  |-> UNION {{[r |-> r, f |-> g, m |-> rs[r][g]] : g \in DOMAIN rs[r]} : r \in UsedRids},
     incl   |-> incl,
     local  |-> {[m |-> x, fs |-> rl[x]] : x \in incl},
     opens  |-> {[f |-> g, n |-> ops[g]] : g \in {h \in DOMAIN ops : ops[h] > 0}},
@@ -176,22 +213,24 @@ Finish(oc) ==
   /\ outcome' = oc
   /\ stack' = <<>>
   /\ step' = step + 1
-  /\ hist' = Append(hist, Summary(oc, repoAll', repoLocal', models', opens'))
+  /\ hist' = Append(hist, Summary(oc, repos', CurRid, repoLocal', models', opens'))
 
 \* an exception leaves all frames; the handlers run in Cleanup
 Fail(oc, nocleanup) ==
   /\ outcome' = oc
   /\ stack' = << [Frame("-", TRUE) EXCEPT !.pc = "cleanup", !.nc = nocleanup] >>
 
-Purge(ra, cr) == [g \in {h \in DOMAIN ra : ra[h] \notin cr} |-> ra[g]]
+Purge(ra, cr)    == [g \in {h \in DOMAIN ra : ra[h] \notin cr} |-> ra[g]]
+PurgeAll(rs, cr) == [r \in DOMAIN rs |-> Purge(rs[r], cr)]
 
 ----------------------------------------------------------------------------
 InitRest ==
   /\ dev = {}
   /\ step = 0 /\ fault = TRUE /\ stack = <<>>
-  /\ models = <<>> /\ repoAll = <<>> /\ repoLocal = <<>>
+  /\ models = <<>> /\ repoLocal = <<>>
+  /\ repos = [r \in Rids \cup {"tmp"} |-> <<>>]
   /\ opens = [f \in Range(sc.files) |-> 0]
-  /\ created = {} /\ before = <<>> /\ outcome = Pending /\ hist = <<>>
+  /\ created = {} /\ before = repos /\ outcome = Pending /\ hist = <<>>
 
 \* (the bound S holds the evaluated sequence: TLC would re-evaluate ScSeq at every use)
 Init == (\E S \in {ScSeq} : \E i \in 1..Len(S) : sc = S[i]) /\ InitRest
@@ -200,37 +239,51 @@ Init == (\E S \in {ScSeq} : \E i \in 1..Len(S) : sc = S[i]) /\ InitRest
 Repair ==
   /\ Idle /\ step < Len(sc.session) /\ Op.op = "repair"
   /\ fault' = FALSE /\ step' = step + 1
-  /\ UNCHANGED <<sc, dev, stack, models, repoAll, repoLocal, opens, created, before, outcome, hist>>
+  /\ UNCHANGED <<sc, dev, stack, models, repos, repoLocal, opens, created, before, outcome, hist>>
 
-\* model_from_file / model_from_str is called
+\* model_from_file / model_from_str of the metamodel of the file's language is called
 StartLoad ==
   /\ Idle /\ step < Len(sc.session) /\ Op.op = "load"
   /\ stack' = << Frame(Op.file, TRUE) >>
   /\ opens' = [f \in Files |-> 0]
   /\ created' = {}
-  /\ repoAll' = IF sc.grepo THEN repoAll ELSE <<>>
-  /\ before' = repoAll'
+  /\ repos' = [repos EXCEPT !["tmp"] = <<>>]
+  /\ before' = repos'
   /\ outcome' = Pending
   /\ UNCHANGED <<sc, dev, step, fault, models, repoLocal, hist>>
 
-ParamsOk(op) == Range(op.given) \subseteq Range(sc.declared) \cup {"project_root"}
+\* only the metamodel that is called validates the parameters
+ParamsOk(op) == Range(op.given) \subseteq Range(sc.declared[sc.lang[op.file]]) \cup {"project_root"}
 
 \* C27: undeclared parameter -> TextXError before anything else happens
 CheckParams ==
   /\ ~Idle /\ Top.pc = "check"
-  /\ UNCHANGED <<sc, dev, fault, models, repoAll, repoLocal, opens, created, before>>
+  /\ UNCHANGED <<sc, dev, fault, models, repos, repoLocal, opens, created, before>>
   /\ IF ParamsOk(Op)
      THEN /\ stack' = WithTop([Top EXCEPT !.pc = "cache"])
           /\ UNCHANGED <<step, outcome, hist>>
-     ELSE Finish(ErrRes("params", NoneFile, 0, 0, <<"-", 0>>))
+     ELSE Finish(ErrRes("params", NoneFile, 0, 0, NoCul))
 
 \* C17: with a global repository a file that is already cached is not loaded again
 CacheStep ==
   /\ ~Idle /\ Top.pc = "cache"
-  /\ IF sc.grepo /\ Op.how # "str" /\ Top.file \in DOMAIN repoAll
+  /\ IF CurRid # "tmp" /\ Op.how # "str" /\ Top.file \in DOMAIN repoAll
      THEN stack' = WithTop([Top EXCEPT !.pc = "main_mp", !.m = repoAll[Top.file]])
      ELSE stack' = WithTop([Top EXCEPT !.pc = "open"])
-  /\ UNCHANGED <<sc, dev, step, fault, models, repoAll, repoLocal, opens, created, before, outcome, hist>>
+  /\ UNCHANGED <<sc, dev, step, fault, models, repos, repoLocal, opens, created, before, outcome, hist>>
+
+\* C17: a file requested by an importing model of another language is taken from the
+\* global repository of its own language when it is cached there
+NestedCache ==
+  /\ ~Idle /\ Top.pc = "ncache"
+  /\ LET g == Top.file
+         r == Rid(g)
+     IN IF r \notin {"-", CurRid} /\ g \in DOMAIN repos[r]
+        THEN /\ repos' = SetAll((g :> repos[r][g]) @@ repoAll)
+             /\ stack' = WithTop([Top EXCEPT !.pc = "nested_mp", !.m = repos[r][g]])
+        ELSE /\ stack' = WithTop([Top EXCEPT !.pc = "open"])
+             /\ UNCHANGED repos
+  /\ UNCHANGED <<sc, dev, step, fault, models, repoLocal, opens, created, before, outcome, hist>>
 
 ReadsFile == ~(Top.main /\ Op.how # "file")       \* a string was given for the main model
 
@@ -238,12 +291,12 @@ OpenFile(f) ==
   /\ ~Idle /\ Top.pc = "open" /\ Top.file = f /\ ReadsFile
   /\ opens' = [opens EXCEPT ![f] = @ + 1]
   /\ stack' = WithTop([Top EXCEPT !.pc = "parse"])
-  /\ UNCHANGED <<sc, dev, step, fault, models, repoAll, repoLocal, created, before, outcome, hist>>
+  /\ UNCHANGED <<sc, dev, step, fault, models, repos, repoLocal, created, before, outcome, hist>>
 
 SkipOpen ==
   /\ ~Idle /\ Top.pc = "open" /\ ~ReadsFile
   /\ stack' = WithTop([Top EXCEPT !.pc = "parse"])
-  /\ UNCHANGED <<sc, dev, step, fault, models, repoAll, repoLocal, opens, created, before, outcome, hist>>
+  /\ UNCHANGED <<sc, dev, step, fault, models, repos, repoLocal, opens, created, before, outcome, hist>>
 
 \* parse + object construction: a new model, or a syntax error at the offending text (C28)
 Parse ==
@@ -252,31 +305,31 @@ Parse ==
          nofile == Top.main /\ Op.how = "str"
      IN IF FaultIn(f, "syntax")
         THEN /\ Fail(ErrRes("syntax", IF nofile THEN NoneFile ELSE f, GarbageLine(f), sc.ind[f] + 1,
-                            <<f, GarbageLine(f)>>), FALSE)
+                            <<f, 0, IF nofile THEN NoneFile ELSE f>>), FALSE)
              /\ UNCHANGED <<models, created, repoLocal>>
-        ELSE LET m == [f |-> f, a |-> Attempt] IN
-             /\ models' = (m :> [params |-> Op.given, defs |-> DefsOf(f), refs |-> RefsOf(f),
-                                 tg |-> <<>>, nofile |-> nofile]) @@ models
+        ELSE LET m == [f |-> IF nofile THEN "~" ELSE f, a |-> Attempt] IN
+             /\ models' = (m :> [src |-> f, params |-> Op.given, defs |-> DefsOf(f), uses |-> UsesOf(f),
+                                 lrefs |-> LrefsOf(f), tg |-> <<>>, nofile |-> nofile]) @@ models
              /\ created' = created \cup {m}
              /\ repoLocal' = (m :> {}) @@ repoLocal
              /\ stack' = WithTop([Top EXCEPT !.pc = "register", !.m = m])
              /\ UNCHANGED outcome
-  /\ UNCHANGED <<sc, dev, step, fault, repoAll, opens, before, hist>>
+  /\ UNCHANGED <<sc, dev, step, fault, repos, opens, before, hist>>
 
-\* pre_ref_resolution_callback: the model enters the shared repository -- for the
-\* main model only when the metamodel has a global repository (otherwise at its
-\* first import, see ImportNext)
+\* pre_ref_resolution_callback: the model enters the repository of the load (and only that
+\* one, whatever its language) -- the main model only when its metamodel has a global
+\* repository (otherwise at its first import, see ImportNext)
 Register ==
   /\ ~Idle /\ Top.pc = "register"
-  /\ repoAll' = IF (sc.grepo \/ ~Top.main) /\ ~models[Top.m].nofile
-                THEN (Top.file :> Top.m) @@ repoAll ELSE repoAll
+  /\ repos' = SetAll(IF (CurRid # "tmp" \/ ~Top.main) /\ ~models[Top.m].nofile
+                     THEN (Top.file :> Top.m) @@ repoAll ELSE repoAll)
   /\ stack' = WithTop([Top EXCEPT !.pc = "imports", !.todo = Stmts(Top.file)])
   /\ UNCHANGED <<sc, dev, step, fault, models, repoLocal, opens, created, before, outcome, hist>>
 
-\* one imported file g for the model of frame fr2, `ra` the shared repository:
-\* visible already | known to the shared repository | nested load
+\* one imported file g for the model of frame fr2, `ra` the repository of the load:
+\* visible already | known to the repository | nested load
 DoImport(g, fr2, ra) ==
-  /\ repoAll' = ra
+  /\ repos' = SetAll(ra)
   /\ IF g \in repoLocal[fr2.m]
      THEN /\ stack' = WithTop(fr2) /\ UNCHANGED repoLocal
      ELSE IF g \in DOMAIN ra
@@ -288,11 +341,11 @@ ImportNext ==
   /\ ~Idle /\ Top.pc = "imports" /\ Top.gl = {} /\ Top.todo # <<>>
   /\ LET s   == Head(Top.todo)
          fr2 == [Top EXCEPT !.todo = Tail(@)]
-         reg == IF Top.file \in DOMAIN repoAll \/ models[Top.m].nofile
-                THEN repoAll ELSE (Top.file :> Top.m) @@ repoAll
+         k   == Key(Top.m)
+         reg == IF k \in DOMAIN repoAll THEN repoAll ELSE (k :> Top.m) @@ repoAll
      IN IF s = "*"
         THEN /\ stack' = WithTop([fr2 EXCEPT !.gl = Range(sc.glob)])
-             /\ repoAll' = reg /\ UNCHANGED repoLocal
+             /\ repos' = SetAll(reg) /\ UNCHANGED repoLocal
         ELSE DoImport(s, fr2, reg)
   /\ UNCHANGED <<sc, dev, step, fault, models, opens, created, before, outcome, hist>>
 
@@ -305,7 +358,7 @@ ImportGlobHits ==
   /\ ~Idle /\ Top.pc = "imports" /\ GlobHits # {}
   /\ repoLocal' = [repoLocal EXCEPT ![Top.m] = @ \cup GlobHits]
   /\ stack' = WithTop([Top EXCEPT !.gl = @ \ GlobHits])
-  /\ UNCHANGED <<sc, dev, step, fault, models, repoAll, opens, created, before, outcome, hist>>
+  /\ UNCHANGED <<sc, dev, step, fault, models, repos, opens, created, before, outcome, hist>>
 
 ImportGlobPick ==
   /\ ~Idle /\ Top.pc = "imports" /\ Top.gl # {} /\ GlobHits = {}
@@ -315,22 +368,22 @@ ImportGlobPick ==
 ImportsDone ==
   /\ ~Idle /\ Top.pc = "imports" /\ Top.gl = {} /\ Top.todo = <<>>
   /\ stack' = WithTop([Top EXCEPT !.pc = IF Top.main THEN "resolve" ELSE "nested_mp"])
-  /\ UNCHANGED <<sc, dev, step, fault, models, repoAll, repoLocal, opens, created, before, outcome, hist>>
+  /\ UNCHANGED <<sc, dev, step, fault, models, repos, repoLocal, opens, created, before, outcome, hist>>
 
 MPFails(m) == "badm" \in Range(models[m].defs)
 
-\* model processors of an imported model run before any reference is resolved;
-\* then the importing model sees it
+\* model processors of an imported model run before any reference is resolved (also
+\* on a model taken from a global repository); then the importing model sees it
 NestedMP ==
   /\ ~Idle /\ Top.pc = "nested_mp"
   /\ IF MPFails(Top.m)
-     THEN /\ Fail(ErrRes("modelproc", NoneFile, 0, 0, <<Top.file, 0>>), FALSE)
+     THEN /\ Fail(ErrRes("modelproc", NoneFile, 0, 0, NoCul), FALSE)
           /\ UNCHANGED repoLocal
      ELSE LET parent == stack[Len(stack) - 1] IN
           /\ stack' = SubSeq(stack, 1, Len(stack) - 1)
           /\ repoLocal' = [repoLocal EXCEPT ![parent.m] = @ \cup {Top.file}]
           /\ UNCHANGED outcome
-  /\ UNCHANGED <<sc, dev, step, fault, models, repoAll, opens, created, before, hist>>
+  /\ UNCHANGED <<sc, dev, step, fault, models, repos, opens, created, before, hist>>
 
 \* Deviation clauses: D ranges over the sets of applicable listed clauses; outside
 \* vacuity runs only sets are taken in which every clause changes the result
@@ -338,12 +391,12 @@ DevChoices(App) == IF Force THEN {Listed \cap App} ELSE SUBSET (Listed \cap App)
 Effective(D, F(_)) == {c \in D : F(D \ {c}) # F(D)}
 
 \* where an error about reference i of model m is located (C28)
-DocLoc(m, i) == [file |-> FileLabel(m), line |-> RefLine(m, i), col |-> RefCol(m)]
-RefOff(m, i) == Off(ModelLens(m), RefLine(m, i), RefCol(m))
+DocLoc(m, i) == [file |-> FileLabel(m), line |-> RefLine(m, i), col |-> RefCol(m, i)]
+RefOff(m, i) == Off(ModelLens(m), RefLine(m, i), RefCol(m, i))
 UnresolvableLoc(m, i, mainm, D) ==
   LET lc == IF "UnresolvableUsesMainParser" \in D
             THEN LineColIn(ModelLens(mainm), RefOff(m, i))
-            ELSE <<RefLine(m, i), RefCol(m)>>
+            ELSE <<RefLine(m, i), RefCol(m, i)>>
   IN [file |-> IF "UnresolvableWithoutFilename" \in D THEN NoneFile ELSE FileLabel(m),
       line |-> lc[1], col |-> lc[2]]
 NotUniqueLoc(m, i, x, D) ==
@@ -352,7 +405,8 @@ NotUniqueLoc(m, i, x, D) ==
        [file |-> FileLabel(x), line |-> lc[1], col |-> lc[2]]
   ELSE DocLoc(m, i)
 
-RefsUnder == UNION {{<<m, i>> : i \in 1..Len(models[m].refs)} : m \in created}
+RefsUnder == UNION {{<<m, i>> : i \in 1..Len(AllRefs(m))} : m \in created}
+Cul(r)    == <<models[r[1]].src, r[2], FileLabel(r[1])>>
 
 \* reference resolution over all models under construction
 Resolve ==
@@ -364,7 +418,7 @@ Resolve ==
      IN IF U \cup N # {}
         THEN \* raised at the first attempt on such a reference
              /\ \/ \E r \in U : LET l == DocLoc(r[1], r[2]) IN
-                     /\ Fail(ErrRes("unknown", l.file, l.line, l.col, <<r[1].f, RefLine(r[1], r[2])>>), FALSE)
+                     /\ Fail(ErrRes("unknown", l.file, l.line, l.col, Cul(r)), FALSE)
                      /\ UNCHANGED dev
                 \/ \E r \in N : \E x \in Dups(r[1], r[2]) :
                    \E D \in DevChoices({"NotUniqueUsesForeignParser"}) :
@@ -372,7 +426,7 @@ Resolve ==
                          l == L(D) IN
                      /\ Force \/ Effective(D, L) = D
                      /\ dev' = dev \cup Effective(D, L)
-                     /\ Fail(ErrRes("notunique", l.file, l.line, l.col, <<r[1].f, RefLine(r[1], r[2])>>), FALSE)
+                     /\ Fail(ErrRes("notunique", l.file, l.line, l.col, Cul(r)), FALSE)
              /\ UNCHANGED models
         ELSE IF P # {}
         THEN \* no progress: the references still postponed are unresolvable
@@ -382,50 +436,50 @@ Resolve ==
                       l == L(D) IN
                   /\ Force \/ Effective(D, L) = D
                   /\ dev' = dev \cup Effective(D, L)
-                  /\ Fail(ErrRes("unresolvable", l.file, l.line, l.col, <<r[1].f, RefLine(r[1], r[2])>>), FALSE)
+                  /\ Fail(ErrRes("unresolvable", l.file, l.line, l.col, Cul(r)), FALSE)
              /\ UNCHANGED models
         ELSE /\ models' = [x \in DOMAIN models |->
                              IF x \in created
-                             THEN [models[x] EXCEPT !.tg = [i \in 1..Len(models[x].refs) |->
-                                                              Targets(x, models[x].refs[i])]]
+                             THEN [models[x] EXCEPT !.tg = [i \in 1..Len(AllRefs(x)) |->
+                                                              Targets(x, AllRefs(x)[i])]]
                              ELSE models[x]]
              /\ stack' = WithTop([Top EXCEPT !.pc = "objprocs", !.left = created])
              /\ UNCHANGED <<outcome, dev>>
-  /\ UNCHANGED <<sc, step, fault, repoAll, repoLocal, opens, created, before, hist>>
+  /\ UNCHANGED <<sc, step, fault, repos, repoLocal, opens, created, before, hist>>
 
 \* object processors, model by model
 ObjProcs(m) ==
   /\ ~Idle /\ Top.pc = "objprocs" /\ m \in Top.left
   /\ IF "bado" \in Range(models[m].defs)
-     THEN Fail(ErrRes("objproc", NoneFile, 0, 0, <<m.f, 0>>), FALSE)
+     THEN Fail(ErrRes("objproc", NoneFile, 0, 0, NoCul), FALSE)
      ELSE /\ stack' = WithTop([Top EXCEPT !.left = @ \ {m}]) /\ UNCHANGED outcome
-  /\ UNCHANGED <<sc, dev, step, fault, models, repoAll, repoLocal, opens, created, before, hist>>
+  /\ UNCHANGED <<sc, dev, step, fault, models, repos, repoLocal, opens, created, before, hist>>
 
 ObjProcsDone ==
   /\ ~Idle /\ Top.pc = "objprocs" /\ Top.left = {}
   /\ stack' = WithTop([Top EXCEPT !.pc = "main_mp"])
-  /\ UNCHANGED <<sc, dev, step, fault, models, repoAll, repoLocal, opens, created, before, outcome, hist>>
+  /\ UNCHANGED <<sc, dev, step, fault, models, repos, repoLocal, opens, created, before, outcome, hist>>
 
 \* model processors of the main model (also on a cached model), then return.
 \* C18 demands the cleanup for this failure too; the clause
-\* NoCleanupOnModelProcessorFailure is what metamodel.internal_model_from_file does.
+\* NoCleanupOnModelProcessorFailure is what metamodel.internal_model_from_file did.
 MainMP ==
   /\ ~Idle /\ Top.pc = "main_mp"
-  /\ UNCHANGED <<sc, fault, models, repoAll, repoLocal, opens, created, before>>
+  /\ UNCHANGED <<sc, fault, models, repos, repoLocal, opens, created, before>>
   /\ IF MPFails(Top.m)
      THEN LET c == "NoCleanupOnModelProcessorFailure"
-              matters == Purge(repoAll, created) # repoAll IN
+              matters == \E r \in Rids : Purge(repos[r], created) # repos[r] IN
           /\ \E nc \in (IF c \in Listed /\ matters THEN (IF Force THEN {TRUE} ELSE {FALSE, TRUE})
                          ELSE {FALSE}) :
-                /\ Fail(ErrRes("modelproc", NoneFile, 0, 0, <<Top.file, 0>>), nc)
+                /\ Fail(ErrRes("modelproc", NoneFile, 0, 0, NoCul), nc)
                 /\ dev' = IF nc THEN dev \cup {c} ELSE dev
           /\ UNCHANGED <<step, hist>>
      ELSE Finish(OkRes(Top.m)) /\ UNCHANGED dev
 
-\* the exception handlers: no model of this attempt stays in a repository
+\* the exception handlers: no model of this attempt stays in any repository
 Cleanup ==
   /\ ~Idle /\ Top.pc = "cleanup"
-  /\ repoAll' = IF Top.nc THEN repoAll ELSE Purge(repoAll, created)
+  /\ repos' = IF Top.nc THEN repos ELSE PurgeAll(repos, created)
   /\ UNCHANGED <<sc, dev, fault, models, repoLocal, opens, created, before>>
   /\ Finish(outcome)
 
@@ -434,7 +488,7 @@ Stutter == Idle /\ step = Len(sc.session) /\ UNCHANGED vars
 
 Next ==
   \/ Stutter
-  \/ Repair \/ StartLoad \/ CheckParams \/ CacheStep
+  \/ Repair \/ StartLoad \/ CheckParams \/ CacheStep \/ NestedCache
   \/ \E f \in Files : OpenFile(f)
   \/ SkipOpen \/ Parse \/ Register \/ ImportNext \/ ImportGlobHits \/ ImportGlobPick \/ ImportsDone
   \/ NestedMP \/ Resolve
@@ -447,37 +501,45 @@ Spec == Init /\ [][Next]_vars
 \* Properties.  They are stated for the documented semantics; a configuration
 \* with a deviation clause switched on must violate the corresponding one.
 JustLoaded == Idle /\ step > 0 /\ LastOp.op = "load"
-Incl       == {repoAll[g] : g \in DOMAIN repoAll} \cup {outcome.model}
+LastRid    == RidOf(LastOp)
+LastAll    == repos[LastRid]
+Incl       == {LastAll[g] : g \in DOMAIN LastAll} \cup {outcome.model}
 Zero       == [f \in Files |-> 0]
+InSomeRepo(x) == \E r \in DOMAIN repos : \E g \in DOMAIN repos[r] : repos[r][g] = x
 
 \* C17: no file is opened twice during one top-level load ...
 C17_OpenOnce == \A f \in Files : opens[f] <= 1
 \* ... and exactly the files of the models created by the load are opened
 C17_OpensCreated ==
   JustLoaded /\ outcome.ok =>
-    \A f \in Files : opens[f] = IF \E m \in created : m.f = f /\ ~(m = outcome.model /\ LastOp.how # "file")
+    \A f \in Files : opens[f] = IF \E m \in created : models[m].src = f
+                                                       /\ ~(m = outcome.model /\ LastOp.how # "file")
                                 THEN 1 ELSE 0
+\* C17: a file cached in the global repository of its language is never read again,
+\* whoever asks for it
+C17_CachedNotOpened ==
+  \A f \in Files : opens[f] > 0 => (Rid(f) = "-" \/ f \notin DOMAIN before[Rid(f)])
 \* C17: one model per file, and every reference to an element of a file points into that model
 C17_Identity ==
   JustLoaded /\ outcome.ok =>
-    /\ \A m \in created : m = outcome.model \/ (m.f \in DOMAIN repoAll /\ repoAll[m.f] = m)
+    /\ \A m \in created : m = outcome.model \/ (Key(m) \in DOMAIN LastAll /\ LastAll[Key(m)] = m)
     /\ \A m \in Incl : \A i \in 1..Len(models[m].tg) : \A t \in models[m].tg[i] :
-          \/ t.m = Builtin
-          \/ t.m = m
-          \/ (t.m.f \in DOMAIN repoAll /\ repoAll[t.m.f] = t.m)
+          t.m = Builtin \/ t.m = m \/ InSomeRepo(t.m)
+    /\ \A m \in created : \A i \in 1..Len(models[m].tg) : \A t \in models[m].tg[i] :
+          t.m = Builtin \/ t.m = m \/ (Key(t.m) \in DOMAIN LastAll /\ LastAll[Key(t.m)] = t.m)
     /\ \A m \in Incl : \A i \in 1..Len(models[m].tg) : models[m].tg[i] # {}
 \* C17: a repeated load with a global repository returns the cached model, untouched
 C17_CacheSame ==
-  JustLoaded /\ sc.grepo /\ LastOp.how # "str" /\ outcome.ok =>
-    /\ repoAll[LastOp.file] = outcome.model
-    /\ (LastOp.file \in DOMAIN before =>
-          outcome.model = before[LastOp.file] /\ created = {} /\ opens = Zero)
-\* C18: after a failure no model of the attempt is in a surviving repository,
-\* models cached earlier are still there
+  JustLoaded /\ LastRid # "tmp" /\ LastOp.how # "str" /\ outcome.ok =>
+    /\ LastAll[LastOp.file] = outcome.model
+    /\ (LastOp.file \in DOMAIN before[LastRid] =>
+          outcome.model = before[LastRid][LastOp.file] /\ created = {} /\ opens = Zero)
+\* C18: after a failure no model of the attempt is in any repository,
+\* what was cached earlier is still there
 C18_CleanRepos ==
   JustLoaded /\ ~outcome.ok =>
-    /\ \A g \in DOMAIN repoAll : repoAll[g] \notin created
-    /\ (sc.grepo => repoAll = before)
+    /\ \A m \in created : ~InSomeRepo(m)
+    /\ \A r \in Rids : \A g \in DOMAIN before[r] : g \in DOMAIN repos[r] /\ repos[r][g] = before[r][g]
 \* C18: once the failing file is corrected the load succeeds
 C18_RepairedReload ==
   JustLoaded /\ ~fault /\ ParamsOk(LastOp) => outcome.ok
@@ -485,19 +547,22 @@ C18_RepairedReload ==
 C27_Reject ==
   JustLoaded =>
     /\ (outcome.kind = "params") <=> ~ParamsOk(LastOp)
-    /\ (outcome.kind = "params" => created = {} /\ opens = Zero /\ repoAll = before)
-\* C27: every model created by the load exposes exactly the given parameters
+    /\ (outcome.kind = "params" => created = {} /\ opens = Zero /\ repos = before)
+\* C27: every model created by the load -- of whatever language -- exposes exactly the given parameters
 C27_Params ==
   /\ ~Idle => \A m \in created : models[m].params = Op.given
   /\ JustLoaded => \A m \in created : models[m].params = LastOp.given
 \* C28: the error names the file of the offending text and its line/column there
-TextOf(f) == LineLens(f, DefsOf(f), RefsOf(f), FaultIn(f, "syntax"))
+TextOf(f) == LineLens(f, DefsOf(f), UsesOf(f), LrefsOf(f), FaultIn(f, "syntax"))
 C28_Location ==
   JustLoaded /\ outcome.kind \in {"syntax", "unknown", "unresolvable", "notunique"} =>
     LET f  == outcome.cul[1]
-        ln == outcome.cul[2]
-        c  == IF outcome.kind = "syntax" THEN sc.ind[f] + 1 ELSE sc.ind[f] + 5
-    IN /\ outcome.file = IF LastOp.how = "str" /\ f = LastOp.file THEN NoneFile ELSE f
+        i  == outcome.cul[2]
+        ln == IF i = 0 THEN GarbageLine(f) ELSE RefLineIn(f, DefsOf(f), UsesOf(f), i)
+        c  == IF i = 0 THEN sc.ind[f] + 1 ELSE RefColIn(f, UsesOf(f), LrefsOf(f), i)
+    IN \* the file that holds the text; none only for the string handed to model_from_str
+       /\ outcome.file = outcome.cul[3]
+       /\ outcome.file \in {f} \cup (IF LastOp.how = "str" /\ f = LastOp.file THEN {NoneFile} ELSE {})
        /\ outcome.line = ln /\ outcome.col = c
        \* the position is the one a parser of that file's text computes
        /\ LineColIn(TextOf(f), Off(TextOf(f), ln, c)) = <<ln, c>>
